@@ -92,7 +92,7 @@ def tester_matrices(g, sysname, rotate=True):
     return bases, rhos
 
 
-def make_qt(g, kind, sysname, para, m=None, rotate=True, eps_proj_physical=None, testers="mub"):
+def make_qt(g, kind, sysname, para, m=None, rotate=True, eps_proj_physical=None, testers="mub", perm=False):
     """(qt, c_sys, m).  m = outcome count of the estimated POVM / measurement process.
     testers="ineff": over-complete, imperfect testers -- one extra random basis, detection efficiency 60-90 % on all but the
     last element of every tester POVM (elements of unequal trace), partly depolarised tester states: the linear estimate of
@@ -115,16 +115,49 @@ def make_qt(g, kind, sysname, para, m=None, rotate=True, eps_proj_physical=None,
     else:
         povms = [Povm(c, [qobj.vec_of(c, np.outer(b[:, i], b[:, i].conj())) for i in range(b.shape[1])]) for b in bases]
     states = [State(c, qobj.vec_of(c, r)) for r in rhos]
-    kw = dict(on_para_eq_constraint=para, schedules="all", eps_proj_physical=eps_proj_physical)
+    # the default schedules of the four classes, as (tester state index, tester povm index) pairs in schedule order
+    pairs = {"qst": [(None, j) for j in range(len(povms))], "povmt": [(i, None) for i in range(len(states))]}.get(
+        kind, [(i, j) for i in range(len(states)) for j in range(len(povms))])
+    schedules = "all"
+    if perm:
+        # an explicit schedule list: the same experiments in another order (a random permutation, never the identity)
+        order = list(g.permutation(len(pairs)))
+        if order == sorted(order):
+            order = order[1:] + order[:1]
+        pairs = [pairs[i] for i in order]
+        mid = {"qst": [], "povmt": [], "qpt": [("gate", 0)], "qmpt": [("mprocess", 0)]}[kind]
+        schedules = [([("state", i if i is not None else 0)] + mid + [("povm", j if j is not None else 0)]) for i, j in pairs]
+    kw = dict(on_para_eq_constraint=para, schedules=schedules, eps_proj_physical=eps_proj_physical)
     if kind == "qst":
-        return StandardQst(povms, **kw), c, None
-    if kind == "povmt":
+        qt = StandardQst(povms, **kw)
+    elif kind == "povmt":
         m = m or 3
-        return StandardPovmt(states, m, **kw), c, m
-    if kind == "qpt":
-        return StandardQpt(states, povms, **kw), c, None
-    m = m or 2
-    return StandardQmpt(states, povms, m, **kw), c, m
+        qt = StandardPovmt(states, m, **kw)
+    elif kind == "qpt":
+        qt = StandardQpt(states, povms, **kw)
+    else:
+        m = m or 2
+        qt = StandardQmpt(states, povms, m, **kw)
+    qt.verif_testers = (states, povms, pairs)        # for the independent Born-rule forward model of the harness
+    return qt, c, (m if kind in ("povmt", "qmpt") else None)
+
+
+def born_probs(qt, obj):
+    """probability distributions of the experiment, schedule by schedule, from the Born rule in basis coordinates (orthonormal
+    Hermitian basis: tr(E rho) = <e, r>), using the tester objects and the schedule list only -- not quara's coefficient matrices"""
+    states, povms, pairs = qt.verif_testers
+    out = []
+    for i, j in pairs:
+        if isinstance(obj, State):
+            out.append(np.array([np.dot(e, obj.vec) for e in povms[j].vecs]))
+        elif isinstance(obj, Povm):
+            out.append(np.array([np.dot(e, states[i].vec) for e in obj.vecs]))
+        elif isinstance(obj, Gate):
+            r = obj.hs @ states[i].vec
+            out.append(np.array([np.dot(e, r) for e in povms[j].vecs]))
+        else:
+            out.append(np.array([np.dot(e, h @ states[i].vec) for h in obj.hss for e in povms[j].vecs]))
+    return out
 
 
 # ----------------------------------------------------------------------------- true objects
@@ -151,6 +184,25 @@ def true_object(g, kind, c, m, cls):
     if cls == "boundary":
         return qobj.rand_mprocess(g, c, m, kraus_rank=1)[0]
     return qobj.rand_mprocess(g, c, m, kraus_rank=d * d)[0]
+
+
+def aligned_object(g, kind, sysname, c, m):
+    """boundary object built from the (unrotated) tester bases themselves: its exact distributions contain exact zeros and ones
+    (eigenstate of a tester, projective POVM / instrument in a tester basis, unitary mapping one tester basis onto another)"""
+    bases, _ = tester_matrices(g, sysname, rotate=False)
+    d = c.dim
+    j, k = int(g.integers(0, len(bases))), int(g.integers(0, len(bases)))
+    b = bases[j]
+    projs = [np.outer(b[:, i], b[:, i].conj()) for i in range(d)]
+    if kind == "qst":
+        return State(c, qobj.vec_of(c, projs[int(g.integers(0, d))]))
+    if kind in ("povmt", "qmpt"):
+        groups = [[projs[i]] for i in range(m - 1)] + [[projs[i] for i in range(m - 1, d)]]      # m <= d outcomes
+        if kind == "povmt":
+            return Povm(c, [qobj.vec_of(c, sum(gr)) for gr in groups])
+        return MProcess(c, [qobj.hs_of_kraus(c, gr) for gr in groups])
+    u = bases[j] @ bases[k].conj().T
+    return Gate(c, qobj.hs_of_kraus(c, [u]))
 
 
 def exact_data(qt, obj, shots=1000):
